@@ -101,10 +101,22 @@ func (s *CountingSource) Size() int64 { return s.size }
 var _ io.ReadSeeker = (*CountingSource)(nil)
 var _ io.ReaderAt = (*CountingSource)(nil)
 
-// LibFrame returns the first go-sfnt function of a raw debug.Stack() dump
-// (TopFrame works on stacks already trimmed by Try/Guard).
+// LibFrame returns the first go-sfnt function of a stack dump that is not in
+// the byte-level reader package (sfnt/parser only executes what its caller
+// asks for; the caller is the interesting site).  If only parser frames
+// exist, the first of them is returned.
 func LibFrame(stack string) string {
+	first := "?"
 	for _, line := range strings.Split(stack, "\n") {
+		if strings.HasPrefix(line, "seehuhn.de/go/sfnt/parser.") {
+			if first == "?" {
+				if i := strings.LastIndex(line, "("); i > 0 {
+					line = line[:i]
+				}
+				first = normFrame(strings.TrimPrefix(line, "seehuhn.de/go/sfnt"))
+			}
+			continue
+		}
 		if strings.HasPrefix(line, "seehuhn.de/go/sfnt") {
 			if i := strings.LastIndex(line, "("); i > 0 {
 				line = line[:i]
@@ -112,7 +124,7 @@ func LibFrame(stack string) string {
 			return normFrame(strings.TrimPrefix(line, "seehuhn.de/go/sfnt"))
 		}
 	}
-	return "?"
+	return first
 }
 
 // normFrame removes closure suffixes (".func1", ".func2.1", ".gowrap1") so
@@ -163,7 +175,7 @@ func AllocSite(fn func()) string {
 			site := ""
 			for {
 				f, more := frames.Next()
-				if strings.HasPrefix(f.Function, "seehuhn.de/go/sfnt") {
+				if strings.HasPrefix(f.Function, "seehuhn.de/go/sfnt") && !strings.HasPrefix(f.Function, "seehuhn.de/go/sfnt/parser.") {
 					site = normFrame(strings.TrimPrefix(f.Function, "seehuhn.de/go/sfnt"))
 					break
 				}
